@@ -431,23 +431,30 @@ def dense_sp(M):
     return np.array(matrix(M), dtype=float)
 
 
-def stock(ctx, case, vneg, vpf, sweep=True):
+def stock(ctx, case, vneg, vpf, sweep=True, test_init=1):
     import andes
     ss = andes.load(andes.get_case(case), no_output=True, default_config=True)
     ss.PFlow.run()
+    # (with test_init = 0 the initialisation test, which happens to evaluate the Jacobians, is skipped: the routine
+    # has to linearise at the initial point by itself)
+    ss.TDS.config.test_init = test_init
     e = ss.EIG
-    c = {'kind': 'stock', 'case': case}
+    c = {'kind': 'stock', 'case': case, 'test_init': test_init}
     try:
         ok = e.run()
     except Exception as ex:   # noqa
         _fail(ctx, 'eig-run-raises', 'EIG.run raised %s on %s' % (type(ex).__name__, case), c)
         return
-    ctx.case('stock:' + case, {'case': case, 'n': int(ss.dae.n), 'm': int(ss.dae.m), 'ok': bool(ok)})
+    ctx.case('stock:%s:%d' % (case, test_init), {'case': case, 'n': int(ss.dae.n), 'm': int(ss.dae.m), 'ok': bool(ok), 'test_init': test_init})
     d = ss.dae
     n, m = d.n, d.m
+    As_reported = np.array(e.As, dtype=float)
+    # the reference uses Jacobians evaluated HERE at the current operating point, not whatever the routine left in dae
+    ss.TDS.fg_update(ss.exist.pflow_tds)
+    ss.j_update(ss.exist.pflow_tds)
     cc = {'n': n, 'm': m, 'fx': dense_sp(d.fx).ravel(), 'fy': dense_sp(d.fy).ravel(), 'gx': dense_sp(d.gx).ravel(),
           'gy': dense_sp(d.gy).ravel(), 'Tf': np.array(d.Tf, float)}
-    out = {'As': np.array(e.As, dtype=float), 'names': []}
+    out = {'As': As_reported, 'names': []}
     ctx.count('stock:zeroT=%d' % int((d.Tf == 0).sum()))
     for key, what in oracle_as(cc, out):
         _fail(ctx, key, '%s: %s' % (case, what), c)
@@ -562,6 +569,7 @@ def run(ctx):
     ctx.cov['source_variant'] = {'_store_stats.n_negative': 'pinned (< +tol)' if vneg == 'c' else 'fixed (< -tol)',
                                  'calc_pfactor.normalise': 'pinned (column)' if vpf == 'c' else 'fixed (row)'}
     stock(ctx, STOCK, vneg, vpf)
+    stock(ctx, STOCK, vneg, vpf, sweep=False, test_init=0)
     fresh = andes.load(andes.get_case(STOCK), no_output=True, default_config=True)
     fresh.PFlow.run()
     sweep_check(ctx, fresh, STOCK)     # TDS not yet initialised: the first value is analysed, the others are not
